@@ -362,13 +362,22 @@ func genCase(t *rapid.T) Case {
 	}
 	c.X = genDec(t, c.Ctx, "x")
 	c.Y = genDec(t, c.Ctx, "y")
-	if costly && gen.Pick(t, 4, "shaped") != 0 { // mostly operands that reach the series / loops
+	var qexp *int32
+	if ctxEntry := strings.HasPrefix(c.Entry, "Context.") && c.Entry != "Context.NewFromString" && c.Entry != "Context.WithPrecision" && c.Entry != "Context.SetString"; (costly && gen.Pick(t, 4, "shaped") != 0) || (!costly && ctxEntry && gen.Pick(t, 2, "shaped2") == 0) {
+		// operands shaped for the operation, as the arithmetic checks draw them
 		ac := arith.Case{Op: strings.ToLower(c.Entry[strings.Index(c.Entry, ".")+1:]), Ctx: c.Ctx}
 		if ac.Ctx.P == 0 {
 			ac.Ctx.P = 5
 		}
+		opname := map[string]string{"roundtointegralexact": "rtie", "roundtointegralvalue": "rtiv"}
+		if n, ok := opname[ac.Op]; ok {
+			ac.Op = n
+		}
 		arith.FillOperands(t, &ac)
 		c.X, c.Y = ac.X, ac.Y
+		if ac.Op == "quantize" {
+			qexp = &ac.QExp
+		}
 	}
 	// big integer of any sign and size
 	switch gen.Pick(t, 4, "bk") {
@@ -391,6 +400,9 @@ func genCase(t *rapid.T) Case {
 		c.E = int32(rapid.IntRange(-40, 40).Draw(t, "esm"))
 	} else if gen.Pick(t, 10, "eext") == 0 { // the ends of the int32 argument range
 		c.E = []int32{2147483647, -2147483648, 2147483646, -2147483647, 2147383647, -2147383648, 1073741824}[gen.Pick(t, 7, "eextv")] - int32(rapid.IntRange(0, 3).Draw(t, "eexto"))*int32(1-2*gen.Pick(t, 2, "eexts"))
+	}
+	if qexp != nil {
+		c.E = *qexp
 	}
 	switch gen.Pick(t, 4, "sk") {
 	case 0:
